@@ -881,6 +881,9 @@ func (i *interpreter) unop(fr *frame, instr *ssa.UnOp, x value) value {
 			if p == nil {
 				panic(runtimePanic{"invalid memory address or nil pointer dereference"})
 			}
+			if v, ok := i.loadBytes(mustDeref(instr.X.Type()), p); ok {
+				return v
+			}
 			return load(mustDeref(instr.X.Type()), p)
 		case rawAddr:
 			unsupported("load through foreign address at %s", i.prog.Fset.Position(instr.Pos()))
